@@ -671,16 +671,20 @@ fn process_request_obj(request: &Request, dbs: &Arc<Databases>, client: &mut Cli
                                 &dbs,
                             )
                         } else {
-                            send_message_to_primary(
-                                get_resolve_message(
-                                    opp_id,
-                                    db_name.to_string(),
-                                    key.clone(),
-                                    value.clone(),
-                                    version,
-                                ),
-                                dbs,
-                            );
+                            // A resolve that arrives from the primary was applied there already and its
+                            // writes are replicated on their own: sending it back would bounce forever
+                            if !client.is_primary() {
+                                send_message_to_primary(
+                                    get_resolve_message(
+                                        opp_id,
+                                        db_name.to_string(),
+                                        key.clone(),
+                                        value.clone(),
+                                        version,
+                                    ),
+                                    dbs,
+                                );
+                            }
                             Response::Ok {}
                         }
                     },
